@@ -4,7 +4,11 @@
  * cases: [0, NMATRIX)        systematic matrix: one mini-run per
  *                            (element size, xtor mode, start state, size variant, op, argument class, failpoint)
  *        [.., +NSWAPCELLS)   swap cells: two differently initialised vectors (element size x element size x
- *                            start state x start state x xtor pairing), swapped and used afterwards
+ *                            start state x start state x xtor pairing), swapped and used afterwards; once both
+ *                            are cleared they are swapped again (nothing but the configuration to exchange), used,
+ *                            brought to capacity 0 with a buffer, swapped, used
+ *                            (constructor and destructor are chosen independently: none, two functions, one-sided,
+ *                            ONE function in both roles, the same function on both vectors with different priv)
  *        [.., ...)           seeded random histories over 1-2 vectors (independent element size / xtor mode)
  *
  * Oracle (after every call, audit_all): size == model, cap >= size, data() is a
@@ -28,8 +32,18 @@ typedef unsigned __int128 u128;
 #define NES 8
 static const size_t ESZ[NES] = { 1, 2, 3, 4, 8, 16, 24, 64 };
 
-enum { X_NONE, X_BOTH, X_CONS, X_DEST, NX };
-static const char *const xname[NX] = { "plain", "cons+dest", "cons-only", "dest-only" };
+/* constructor/destructor configurations.  A vector registers none, one or two of the two hook functions below
+ * (hook_a, hook_b); which role a hook plays is a property of the VECTOR, not of the function:
+ *   cons+dest   hook_a constructs, hook_b destroys        same-fn    hook_a is constructor AND destructor
+ *   cons-only   hook_a                                    reversed   hook_b constructs, hook_a destroys
+ *   dest-only   hook_b
+ * so the same function serves different vectors (different priv) in the same or in opposite roles. */
+enum { X_NONE, X_BOTH, X_CONS, X_DEST, X_SAME, X_REV, NX };
+#define NXM 5                   /* modes of the systematic matrix (X_REV: swap cells and histories only) */
+static const char *const xname[NX] = { "plain", "cons+dest", "cons-only", "dest-only", "cons==dest(same function)",
+                                       "cons+dest(roles reversed)" };
+static const unsigned char xcons[NX] = { 0, 1, 1, 0, 1, 2 };   /* 0 none, 1 hook_a, 2 hook_b */
+static const unsigned char xdest[NX] = { 0, 2, 0, 2, 1, 1 };
 
 /* argument classes (requested sizes and at() indices) */
 enum {
@@ -69,11 +83,12 @@ static size_t es;
 static int xmode, has_cons, has_dest;
 static int nvec, keyspace;
 static size_t live0;
+static int after_bare_swap[2];  /* V[i] was swapped while neither vector had storage and has not been grown since */
 static void use_mod(const struct vm *m)
 {
     es = m->es; xmode = m->xmode;
-    has_cons = xmode == X_BOTH || xmode == X_CONS;
-    has_dest = xmode == X_BOTH || xmode == X_DEST;
+    has_cons = xcons[xmode] != 0;
+    has_dest = xdest[xmode] != 0;
 }
 
 /* context of the call in flight (violation keys, callbacks) */
@@ -200,6 +215,33 @@ static void dest_cb(void *slot, void *priv)
     cb_calls++;
     VRT_COUNT("xtor.destructor-calls");
 }
+/* the functions the library gets.  The role of a call follows from the configuration of the vector operated on;
+ * where one function is registered in both roles it follows from the slot: a call on a slot entering [0,size) is
+ * a construction, on a slot leaving it a destruction, anything else is a violation (cons_cb/dest_cb check the slot
+ * against the entering/leaving range and its dead/live state). */
+static void hook(int f, void *slot, void *priv)
+{
+    const int is_c = cb_mod != NULL && xcons[cb_mod->xmode] == f, is_d = cb_mod != NULL && xdest[cb_mod->xmode] == f;
+    CHK(is_c || is_d, "xtor.foreign-function",
+        "a function that is neither constructor nor destructor of the vector operated on was called (slot %p priv %p)",
+        slot, priv);
+    if (is_c && is_d) {
+        CHK(cb_kind != CB_NONE, "xtor.unexpected",
+            "constructor/destructor (one function) called where no element enters or leaves [0,size)");
+        if (cb_kind == CB_CONS) { cons_cb(slot, priv); VRT_COUNT("xtor.same-function.constructions"); }
+        else { dest_cb(slot, priv); VRT_COUNT("xtor.same-function.destructions"); }
+    } else if (is_c) {
+        cons_cb(slot, priv);
+        if (f == 2) VRT_COUNT("xtor.reversed-roles.constructions");
+    } else {
+        dest_cb(slot, priv);
+        if (f == 1) VRT_COUNT("xtor.reversed-roles.destructions");
+    }
+}
+static void hook_a(void *slot, void *priv) { hook(1, slot, priv); }
+static void hook_b(void *slot, void *priv) { hook(2, slot, priv); }
+static cstl_xtor_func_t *const hookfn[3] = { NULL, hook_a, hook_b };
+
 static void cb_expect(int vi, int kind, size_t lo, size_t hi)
 {
     cb_vec = &V[vi]; cb_mod = mod[vi]; cb_kind = kind; cb_lo = lo; cb_hi = hi; cb_calls = 0;
@@ -352,6 +394,7 @@ static void st_create2(size_t es0, int xm0, size_t es1, int xm1, int nv, int ks)
 {
     int i;
     nvec = nv; keyspace = ks;
+    after_bare_swap[0] = after_bare_swap[1] = 0;
     live0 = vrt_lib_live();
     vrt_rng_seed(&rand_rng, 0x72616e64, (es0 * 64 + xm0 * 8 + nv) * 1024 + es1 * 4 + xm1);
     for (i = 0; i < nv; i++) {
@@ -363,7 +406,11 @@ static void st_create2(size_t es0, int xm0, size_t es1, int xm1, int nv, int ks)
         memset(&V[i], 0x5a, sizeof(V[i]));
         if (xmode == X_NONE && i == 0 && ks == 0) init_by_macro(&V[i], es);
         else if (xmode == X_NONE && i == 0) { cstl_vector_init(&V[i], es); VRT_COUNT("init.cstl_vector_init"); }
-        else cstl_vector_init_complex(&V[i], es, has_cons ? cons_cb : NULL, has_dest ? dest_cb : NULL, &MOD[i]);
+        else {
+            cstl_vector_init_complex(&V[i], es, hookfn[xcons[xmode]], hookfn[xdest[xmode]], &MOD[i]);
+            VRT_COUNT("init.cstl_vector_init_complex");
+            if (xmode == X_SAME) VRT_COUNT("init.constructor-and-destructor-same-function");
+        }
     }
     cur_op = "init"; cur_state = "fresh";
 }
@@ -529,6 +576,9 @@ static int op_resize(int vi, size_t req, int cls, int fp)
             req, n0, cap0);
         if (req > n0) {
             VRT_COUNT("resize.grow");
+            if (xmode == X_SAME) VRT_COUNT("resize.grow.same-function-is-cons-and-dest");
+            if (has_dest && !has_cons) VRT_COUNT("resize.grow.destructor-only-vector");
+            if (after_bare_swap[vi]) { after_bare_swap[vi] = 0; VRT_COUNT("swap.both-without-storage.then-grown"); }
             if (has_cons)
                 CHK(cb_calls == req - n0, "ctor.count", "resize %zu -> %zu made %zu constructor calls", n0, req, cb_calls);
             else
@@ -536,6 +586,8 @@ static int op_resize(int vi, size_t req, int cls, int fp)
             known = has_cons ? req : n0;
         } else {
             if (req < n0) VRT_COUNT("resize.shrink"); else VRT_COUNT("resize.same-size");
+            if (req < n0 && xmode == X_SAME) VRT_COUNT("resize.shrink.same-function-is-cons-and-dest");
+            if (req < n0 && has_cons && !has_dest) VRT_COUNT("resize.shrink.constructor-only-vector");
             if (has_dest)
                 CHK(cb_calls == n0 - req, "dtor.count", "resize %zu -> %zu made %zu destructor calls", n0, req, cb_calls);
             else
@@ -622,6 +674,8 @@ static int op_clear(int vi)
     cb_expect(vi, has_dest && n0 ? CB_DEST : CB_NONE, 0, n0);
     cstl_vector_clear(v);
     VRT_COUNT("op.clear");
+    if (n0 && xmode == X_SAME) VRT_COUNT("clear.non-empty.same-function-is-cons-and-dest");
+    if (n0 && has_cons && !has_dest) VRT_COUNT("clear.non-empty.constructor-only-vector");
     if (has_dest) CHK(cb_calls == n0, "dtor.count", "clear of %zu elements made %zu destructor calls", n0, cb_calls);
     else for (i = 0; i < n0; i++) m->live[i] = 0;
     m->n = 0;
@@ -645,8 +699,12 @@ static int op_swap(int first)
     struct vm *t;
     const char *s0, *s1;
     uint64_t h;
+    size_t cap0, cap1;
+    int bare;
     if (nvec < 2) return 0;
     s0 = state_class(0); s1 = state_class(1);
+    cap0 = cstl_vector_capacity(&V[0]); cap1 = cstl_vector_capacity(&V[1]);
+    bare = cstl_vector_data(&V[0]) == NULL && cstl_vector_data(&V[1]) == NULL;
     begin_op(K_SWAP, 0, -1);
     h = vrt_mix(vrt_mix(vrt_mix(vrt_mix(vrt_mix(0xC095, mod[0]->es), mod[1]->es), state_index(s0)), state_index(s1)), first);
     vrt_sig(0, h);
@@ -660,6 +718,22 @@ static int op_swap(int first)
     if (mod[0]->xmode != mod[1]->xmode) VRT_COUNT("swap.different-xtor-modes");
     if (s0[1] == 'r' || s1[1] == 'r') VRT_COUNT("swap.with-never-allocated-vector");
     if (s0 != s1) VRT_COUNT("swap.different-state-classes");
+    if (mod[0]->xmode == X_SAME || mod[1]->xmode == X_SAME) VRT_COUNT("swap.with-same-function-vector");
+    if (xcons[mod[0]->xmode] && (xcons[mod[0]->xmode] == xcons[mod[1]->xmode] || xcons[mod[0]->xmode] == xdest[mod[1]->xmode]))
+        VRT_COUNT("swap.one-function-registered-with-both-vectors");
+    if (bare || (cap0 | cap1) == 0) {
+        /* nothing to exchange but the configuration (element size, constructor, destructor, priv) */
+        const int differ = mod[0]->es != mod[1]->es || mod[0]->xmode != mod[1]->xmode;
+        if (bare) {
+            VRT_COUNT("swap.both-without-storage");
+            if (differ) VRT_COUNT("swap.both-without-storage.differently-configured");
+            if (mod[0]->serial || mod[1]->serial) VRT_COUNT("swap.both-without-storage.after-clear");
+            after_bare_swap[0] = after_bare_swap[1] = 1;
+        } else {
+            VRT_COUNT("swap.both-capacity-zero-with-a-buffer");
+            if (differ) VRT_COUNT("swap.both-capacity-zero-with-a-buffer.differently-configured");
+        }
+    }
     t = mod[0]; mod[0] = mod[1]; mod[1] = t;
     audit_all(0, mod[0]->n, "swap.bytes");
     return 1;
@@ -740,7 +814,7 @@ static int op_reverse(int vi)
 /* ---- systematic matrix ---- */
 enum { S_FRESH, S_EMPTY, S_FULL, S_SLACK, NS };
 static const char *const sname[NS] = { "fresh", "empty-with-buffer", "full(cap==size)", "slack(cap>size)" };
-#define NMATRIX ((uint64_t)NES * NX * NS * 2 * 2 * NA * 2)
+#define NMATRIX ((uint64_t)NES * NXM * NS * 2 * 2 * NA * 2)
 
 static void run_matrix(uint64_t idx)
 {
@@ -752,7 +826,7 @@ static void run_matrix(uint64_t idx)
     op = idx % 2; idx /= 2;
     var = idx % 2; idx /= 2;
     st = idx % NS; idx /= NS;
-    xm = idx % NX; idx /= NX;
+    xm = idx % NXM; idx /= NXM;
     e = (int)idx;
     vrt_rng_seed(&g, vrt_seed, 0xC09A000 + (uint64_t)cls * 131 + e * 7 + st);
     base = var ? 150 + vrt_below(&g, 200) : 5 + vrt_below(&g, 6);
@@ -796,8 +870,18 @@ static void run_matrix(uint64_t idx)
 }
 
 /* ---- swap cells: two differently initialised vectors in every pair of start states ---- */
-static const int xpair[4][2] = { { X_NONE, X_BOTH }, { X_BOTH, X_BOTH }, { X_CONS, X_DEST }, { X_BOTH, X_NONE } };
-#define NSWAPCELLS ((uint64_t)NES * NES * NS * NS * 4)
+/* pairings 0-3 run over every pair of element sizes; 4.. (one function in both roles, the same function registered
+ * with both vectors in the same / in opposite roles, one-sided and no callbacks on both sides) over every first
+ * element size with a second one that walks through all eight (equal sizes included: then only xtors/priv differ) */
+#define NXP 4
+#define NXQ 8
+static const int xpair[NXP + NXQ][2] = {
+    { X_NONE, X_BOTH }, { X_BOTH, X_BOTH }, { X_CONS, X_DEST }, { X_BOTH, X_NONE },
+    { X_SAME, X_SAME }, { X_SAME, X_BOTH }, { X_NONE, X_SAME }, { X_SAME, X_CONS },
+    { X_DEST, X_SAME }, { X_REV, X_BOTH }, { X_CONS, X_CONS }, { X_NONE, X_NONE }
+};
+#define NSWAPCELLS_P ((uint64_t)NES * NES * NS * NS * NXP)
+#define NSWAPCELLS ((uint64_t)NSWAPCELLS_P + NES * NS * NS * NXQ)
 static void build_state(int vi, int st, size_t base)
 {
     switch (st) {
@@ -811,11 +895,21 @@ static void run_swapcell(uint64_t idx)
 {
     vrt_rng g;
     int xp, st0, st1, e0, e1, i;
-    xp = idx % 4; idx /= 4;
-    st1 = idx % NS; idx /= NS;
-    st0 = idx % NS; idx /= NS;
-    e1 = idx % NES; idx /= NES;
-    e0 = (int)idx;
+    if (idx < NSWAPCELLS_P) {
+        xp = idx % NXP; idx /= NXP;
+        st1 = idx % NS; idx /= NS;
+        st0 = idx % NS; idx /= NS;
+        e1 = idx % NES; idx /= NES;
+        e0 = (int)idx;
+    } else {
+        idx -= NSWAPCELLS_P;
+        xp = NXP + idx % NXQ; idx /= NXQ;
+        st1 = idx % NS; idx /= NS;
+        st0 = idx % NS; idx /= NS;
+        e0 = (int)idx;
+        e1 = (e0 + 1 + (xp + 2 * st0 + 3 * st1) % NES) % NES;
+        VRT_COUNT("swap.cells.xtor-pairings");
+    }
     vrt_rng_seed(&g, vrt_seed, 0xC095000 + e0 * 64 + e1 * 8 + st0 * 4 + st1);
     vrt_case_note("swap cell v0: elem=%zu xtor=%s state=%s; v1: elem=%zu xtor=%s state=%s", ESZ[e0], xname[xpair[xp][0]],
                   sname[st0], ESZ[e1], xname[xpair[xp][1]], sname[st1]);
@@ -840,6 +934,18 @@ static void run_swapcell(uint64_t idx)
     op_swap(0);
     op_clear(0);
     op_clear(1);
+    /* second life: neither vector has storage now, all a swap can exchange is the configuration */
+    op_swap(1 - (xp & 1));
+    for (i = 0; i < 2; i++) op_resize(i, 2 + (size_t)i + (size_t)(st0 + st1) % 3, A_SMALL, 0);
+    if (xp >= NXP || st0 == st1) {
+        /* capacity 0 on both sides, but with a (one slot) buffer each */
+        for (i = 0; i < 2; i++) { op_resize(i, 0, A_ZERO, 0); op_shrink(i, 0); }
+        op_swap(xp & 1);
+        op_resize(1, 2, A_SMALL, 0);
+        op_resize(0, 1, A_ONE, 0);
+    }
+    op_clear(1);
+    op_clear(0);
     CHK(vrt_lib_live() == live0, "alloc.leak-at-end", "%zu library blocks still live after clearing every vector",
         vrt_lib_live() - live0);
     st_destroy();
@@ -863,19 +969,24 @@ static int pick_class(vrt_rng *g, int op)
     return refuse[vrt_below(g, 11)];
 }
 
+static int pick_xmode(vrt_rng *g)
+{
+    static const int w[12] = { X_NONE, X_NONE, X_NONE, X_BOTH, X_BOTH, X_BOTH, X_SAME, X_SAME, X_SAME, X_CONS, X_DEST, X_REV };
+    return w[vrt_below(g, 12)];
+}
 static void run_random(uint64_t idx)
 {
     vrt_rng g;
     int e, xm, e1, xm1, nv, ks, nops, i, big;
     vrt_rng_seed(&g, vrt_seed, 0xC090000 + idx);
     e = vrt_below(&g, NES);
-    xm = vrt_below(&g, 8); xm = xm < 3 ? X_NONE : xm < 6 ? X_BOTH : xm == 6 ? X_CONS : X_DEST;
+    xm = pick_xmode(&g);
     nv = 1 + vrt_below(&g, 2);
     e1 = e; xm1 = xm;
     if (nv == 2 && vrt_chance(&g, 2, 3)) {
         /* two differently initialised vectors: swap exchanges element size and xtors too */
         e1 = vrt_below(&g, NES);
-        xm1 = vrt_below(&g, 8); xm1 = xm1 < 3 ? X_NONE : xm1 < 6 ? X_BOTH : xm1 == 6 ? X_CONS : X_DEST;
+        xm1 = pick_xmode(&g);
     }
     ks = vrt_chance(&g, 1, 2) ? 0 : 2 + vrt_below(&g, 5);
     big = idx % 5 == 0;
@@ -944,7 +1055,17 @@ static const char *const required[] = {
     "reserve.grew", "alloc.realloc-moved-the-block", "xtor.constructor-calls", "xtor.destructor-calls",
     "clear.released-the-buffer", "shrink.to-exactly-size", "sort.scratch-slot-right-after-last-element",
     "reverse.scratch-slot-right-after-last-element", "audit.elements-written-and-read-back",
-    "init.DECLARE_CSTL_VECTOR", "init.cstl_vector_init", "matrix.cells", "random.histories", NULL
+    "init.DECLARE_CSTL_VECTOR", "init.cstl_vector_init", "matrix.cells", "random.histories",
+    /* callbacks varied independently: one function in both roles, one-sided vectors, shared functions */
+    "init.constructor-and-destructor-same-function", "xtor.same-function.constructions",
+    "xtor.same-function.destructions", "resize.grow.same-function-is-cons-and-dest",
+    "resize.shrink.same-function-is-cons-and-dest", "clear.non-empty.same-function-is-cons-and-dest",
+    "resize.shrink.constructor-only-vector", "clear.non-empty.constructor-only-vector",
+    "resize.grow.destructor-only-vector", "xtor.reversed-roles.constructions", "xtor.reversed-roles.destructions",
+    "swap.with-same-function-vector", "swap.one-function-registered-with-both-vectors", "swap.cells.xtor-pairings",
+    "swap.both-without-storage", "swap.both-without-storage.differently-configured",
+    "swap.both-without-storage.after-clear", "swap.both-without-storage.then-grown",
+    "swap.both-capacity-zero-with-a-buffer.differently-configured", NULL
 };
 static const struct vrt_harness H = { "vector", ncases, run_case, winit, NULL, required, 16 };
 
